@@ -1025,3 +1025,44 @@ func (p *Program) listLiteral(pkgPath, name string) ([]constant.Value, bool) {
 	}
 	return nil, false
 }
+
+// hostsOf: fn and the newly extracted helpers that run on its behalf only (a handler split into a pipeline of stages).
+func (d *dev) hostsOf(fn *ssa.Function) []*ssa.Function {
+	out := []*ssa.Function{fn}
+	helpers := d.newHelpers()
+	for _, h := range d.p.Funcs {
+		if helpers[h] && h != fn && d.ownerOf(h) == fn {
+			out = append(out, h)
+		}
+	}
+	return out
+}
+
+// helperReturns: v is (one result of) a call of a repository function: the values its returns deliver for that result.
+func helperReturns(p *Program, v ssa.Value) ([]ssa.Value, bool) {
+	idx := 0
+	var call *ssa.Call
+	switch x := v.(type) {
+	case *ssa.Extract:
+		c, ok := x.Tuple.(*ssa.Call)
+		if !ok {
+			return nil, false
+		}
+		call, idx = c, x.Index
+	case *ssa.Call:
+		call = x
+	default:
+		return nil, false
+	}
+	f := call.Call.StaticCallee()
+	if f == nil || len(f.Blocks) == 0 || !p.OwnedFunc(f) {
+		return nil, false
+	}
+	var out []ssa.Value
+	for _, b := range f.Blocks {
+		if r, ok := b.Instrs[len(b.Instrs)-1].(*ssa.Return); ok && b != f.Recover && idx < len(r.Results) {
+			out = append(out, r.Results[idx])
+		}
+	}
+	return out, len(out) > 0
+}
